@@ -27,6 +27,7 @@ show errors.
 import ast
 import builtins
 import contextlib
+import types
 import typing
 from collections.abc import Callable, Container, Generator, Hashable, Mapping, Sequence
 from contextlib import AbstractContextManager
@@ -1020,6 +1021,12 @@ class _Visitor(ast.NodeVisitor):
         root_value = self.visit(node.value)
         return self.ctx.get_attribute(root_value, node)
 
+    def visit_Starred(self, node: ast.Starred) -> Value:
+        # *tuple[int, ...] (PEP 646): same as Unpack[tuple[int, ...]]
+        return _SubscriptedValue(
+            KnownValue(typing_extensions.Unpack), (self.visit(node.value),)
+        )
+
     def visit_Tuple(self, node: ast.Tuple) -> Value:
         elts = [(False, self.visit(elt)) for elt in node.elts]
         return SequenceValue(tuple, elts)
@@ -1164,6 +1171,13 @@ class _Visitor(ast.NodeVisitor):
             return None
 
 
+def _desugar_star(arg: object) -> object:
+    """A member written *tuple[int, ...] (PEP 646) is Unpack[tuple[int, ...]]."""
+    if getattr(arg, "__unpacked__", False) and get_origin(arg) is tuple:
+        return typing_extensions.Unpack[types.GenericAlias(tuple, get_args(arg))]
+    return arg
+
+
 def _is_tuple(typ: object) -> bool:
     return typ is tuple or is_typing_name(typ, "Tuple")
 
@@ -1190,7 +1204,8 @@ def _value_of_origin_args(
             return SequenceValue(tuple, [])
         else:
             args_vals = [
-                _type_from_runtime(arg, ctx, allow_unpack=True) for arg in args
+                _type_from_runtime(_desugar_star(arg), ctx, allow_unpack=True)
+                for arg in args
             ]
             return _make_sequence_value(tuple, args_vals, ctx)
     elif is_union(origin):
